@@ -449,7 +449,7 @@ type c09fix struct {
 
 func c09newFix(t *testing.T) (*c09fix, error) {
 	f := &c09fix{t: t, ctx: context.Background(), domains: map[string]eth2p0.Domain{}, verified: map[string]bool{},
-		strict: os.Getenv("VERIF_C09_STRICT") == "1"}
+		strict: os.Getenv("VERIF_C09_STRICT") != "0"} // the literal statement ("... repeat a share ... contain an invalid share: nothing at all is published") is the default
 	bmock, err := beaconmock.New(t.Context())
 	if err != nil {
 		return nil, err
